@@ -31,8 +31,8 @@ MANIFEST = dict(
          'proved without it (no_external). no_overwrite_ok_iff/error_iff hold with NoDup targets discharged from C11 '
          '(targets_distinct_from_c11). MODEL BOUNDARY (not findings): hard links (no inode identity) and symbolic links in the '
          'directory chain of a target. '
-         'render_independent_from_c10 instantiates the content premise from C10_file_indep_real, C10\'s single_run_entry (existence) and '
-         'decidability of entry matching (not stated in C10). Under the NAMED premise render_independent (text depends on (class, path) only: '
+         'render_independent_on_targets_from_c10 / regen_equals_fresh_from_c10 instantiate the content premise from C10_file_indep_real, single_run_entry and '
+         'one hypothesis ids_agree_with_c10_keys (what the harness fixes); *_on_targets: independence on the targets of the running configuration suffices. Under the NAMED premise render_independent (text depends on (class, path) only: '
          'C10/C07) and env_wf: after ANY history of runs and crashes from ANY start tree a successful non-dry run with a SetFileMode '
          'leaves every target equal to the run into the empty directory (regen_equals_fresh, regen_canonical, '
          'regen_content_canonical; no exclusion: since fix 7df01dd a directory at the path of any file to generate makes the run '
